@@ -4,7 +4,7 @@
    2.1.3 algorithm; both are compared with the real code on every run.  spec/SizeSpec.v: the documented unit table,
    written down independently.  Proofs: proofs/SizeProofs.v. *)
 From Coq Require Import String ZArith NArith List Bool.
-From FS Require Import lib.Str lib.Res lib.Dec lib.Fin lib.SoftF64 gen.SizeGen model.Size spec.SizeSpec proofs.SizeProofs.
+From FS Require Import lib.Str lib.Res lib.Dec lib.Fin lib.SoftF64 gen.SizeGen model.Size spec.SizeSpec proofs.SizeProofs proofs.SizeGeneral.
 Import ListNotations.
 Open Scope Z_scope.
 
@@ -51,18 +51,37 @@ Theorem C14_format_documented_examples :
   format_filesize 1678123 (s "%.0 s")   = Ok (s "2 M").
 Proof. exact format_examples. Qed.
 
-(* rendering is accurate to the displayed precision, reads back (through an independent reader of the rendered
-   text) to the original size up to half a unit of the last displayed digit plus one byte, and is monotone in the
-   size - for EVERY size below 2^16 (finite domain, decided by the kernel and lifted with forallb_forall) and on
-   the grid of all 2^k - 1, 2^k, 2^k + 1, k <= 63.  These are finite-domain theorems, not a proof for all sizes. *)
-Theorem C14_format_roundtrip_below_2_16 : forall n, (n < 65536)%N -> accurate n = true /\ roundtrips n = true.
-Proof. exact format_roundtrip_below_2_16. Qed.
-Theorem C14_format_monotone_below_2_16 : forall a b, (a <= b)%N -> (b < 65536)%N -> rendered_centibytes a <= rendered_centibytes b.
-Proof. exact format_monotone_below_2_16. Qed.
-Theorem C14_format_roundtrip_grid : forall n, In n grid -> (n < 2 ^ 50)%N -> roundtrips n = true.
-Proof. exact format_roundtrip_grid. Qed.
-Theorem C14_format_monotone_grid : forall a b, In a grid -> In b grid -> (a <= b)%N -> rendered_centibytes a <= rendered_centibytes b.
-Proof. exact format_monotone_grid. Qed.
+(* RENDERING, FOR EVERY SIZE A u64 CAN HOLD (proofs/SizeGeneral.v; the default rendering `render` = FORMAT_SIZE(n, '')).
+   The proof reduces the float pipeline to two integer functions - rnd53 (the double a u64 converts to) and the
+   nearest-even rounding to two decimals of the exact quotient (division by 1024.0 is exact) - and is closed by the kernel
+   for all n, not on a sample. *)
+
+(* monotone: a larger size never renders to a text denoting less (also across unit boundaries) *)
+Theorem C14_format_monotone : forall a b, (a <= b)%N -> (b < 2 ^ 64)%N -> rendered_centibytes a <= rendered_centibytes b.
+Proof. exact format_monotone_all. Qed.
+
+(* read back: parse_filesize of the rendered text is the original size up to half a unit of the last displayed digit
+   plus the one byte of the `as u64` truncation - for every size below 2^50 = 1 PiB; the bound is sharp because
+   parse_filesize knows no unit above TiB (1 PiB renders as "1PiB", which it cannot read) *)
+Theorem C14_format_roundtrip : forall n, (n < 2 ^ 50)%N -> roundtrips n = true.
+Proof. exact format_roundtrip_all. Qed.
+Example C14_format_roundtrip_bound_sharp : roundtrips (2 ^ 50) = false /\ render (2 ^ 50) = s "1PiB"%string.
+Proof. exact format_roundtrip_bound_sharp. Qed.
+
+(* accuracy: the rendered text denotes the size to within half a unit of its last displayed digit plus the error of
+   the u64 -> binary64 conversion, which is zero below 2^53 and at most 2^(log2 n - 53) bytes above *)
+Theorem C14_format_accuracy : forall n, (0 < n < 2 ^ 64)%N ->
+  exists v U places,
+    read_rendered (render n) = Some (v, U, places) /\ 0 < U /\
+    2 * Z.abs (v - 100 * Z.of_N n) <= U + 200 * Z.abs (rnd53 (Z.of_N n) - Z.of_N n) /\
+    2 * Z.abs (rnd53 (Z.of_N n) - Z.of_N n) <= 2 ^ Z.max 0 (Z.log2 (Z.of_N n) - 52).
+Proof. exact format_accuracy_all. Qed.
+Theorem C14_format_accurate_below_2_53 : forall n, (n < 2 ^ 53)%N -> accurate n = true.
+Proof. exact format_accurate_partial. Qed.
+(* ... and half a unit alone is NOT met by every u64: 9046605751480483 bytes = 8.03499999999999925 PiB becomes the
+   double 9046605751480484 and prints "8.04PiB" (the property asks for "the displayed precision", which holds) *)
+Theorem C14_format_half_unit_refuted_above_2_53 : exists n, (n < 2 ^ 64)%N /\ accurate n = false.
+Proof. exact format_accurate_all_refuted. Qed.
 
 (* the binary64 rounding the model relies on is round-to-nearest-even *)
 Theorem C14_rounding_is_nearest_even : forall neg num den m e,
@@ -75,8 +94,10 @@ Print Assumptions C14_ladder_is_the_documented_table.
 Print Assumptions C14_units_exact.
 Print Assumptions C14_fraction_exact.
 Print Assumptions C14_format_documented_examples.
-Print Assumptions C14_format_roundtrip_below_2_16.
-Print Assumptions C14_format_monotone_below_2_16.
-Print Assumptions C14_format_roundtrip_grid.
-Print Assumptions C14_format_monotone_grid.
+Print Assumptions C14_format_monotone.
+Print Assumptions C14_format_roundtrip.
+Print Assumptions C14_format_roundtrip_bound_sharp.
+Print Assumptions C14_format_accuracy.
+Print Assumptions C14_format_accurate_below_2_53.
+Print Assumptions C14_format_half_unit_refuted_above_2_53.
 Print Assumptions C14_rounding_is_nearest_even.
